@@ -7,6 +7,7 @@ import (
 	"database/sql"
 	"fmt"
 	"math/rand"
+	"reflect"
 	"strings"
 
 	"gorm.io/gorm"
@@ -379,24 +380,14 @@ func (u Unit) args(base *gorm.DB, soft bool) (interface{}, []interface{}) {
 	case "map":
 		return renderMap(u.Ast, u), nil
 	case "struct":
-		if soft {
-			r := &Row{}
-			for _, c := range conjuncts(u.Ast) {
-				if u.Mirror {
-					setField(&r.Ora, &r.Bandb, &r.S, c)
-				} else {
-					setField(&r.A, &r.B, &r.S, c)
-				}
-			}
-			return r, nil
+		r := newModel(soft, 0)
+		rv := reflect.ValueOf(r).Elem()
+		fa, fb := "A", "B"
+		if u.Mirror {
+			fa, fb = "Ora", "Bandb"
 		}
-		r := &RowP{}
 		for _, c := range conjuncts(u.Ast) {
-			if u.Mirror {
-				setField(&r.Ora, &r.Bandb, &r.S, c)
-			} else {
-				setField(&r.A, &r.B, &r.S, c)
-			}
+			setField(rv.FieldByName(fa).Addr().Interface().(**int64), rv.FieldByName(fb).Addr().Interface().(**int64), rv.FieldByName("S").Addr().Interface().(**string), c)
 		}
 		return r, nil
 	case "expr":
@@ -425,10 +416,7 @@ func (u Unit) args(base *gorm.DB, soft bool) (interface{}, []interface{}) {
 		case "map":
 			return map[string]interface{}{}, nil
 		case "struct":
-			if soft {
-				return &Row{}, nil
-			}
-			return &RowP{}, nil
+			return newModel(soft, 0), nil
 		case "slice":
 			return []int64{}, nil
 		}
